@@ -103,17 +103,32 @@ def gen_case(rng):
         k = rng.randint(1 if pk == 'tuple' else 0, len(pool)) if k is None else max(k, 1 if pk == 'tuple' else 0)
         ls = _labels(rng, pool, k)
         return _tree_sorted(ls) if pk == 'tuple' else ls
+    def near_equal():
+        '''two hierarchies of the same shape and outer labels: a is a full product (its levels may be ONE shared Index object),
+        b differs from it in a single inner label under an early (or, less often, the last) outer label'''
+        inner = sorted(rng.sample(range(3), 2))
+        spare = [i for i in range(3) if i not in inner][0]
+        a = [['t', [['s', o], ['i', i]]] for o in 'AB' for i in inner]
+        b = [list(x) for x in a]
+        o = 'A' if rng.random() < 0.8 else 'B'
+        k = rng.choice([j for j, l in enumerate(b) if l[1][0] == ['s', o]])
+        b[k] = ['t', [['s', o], ['i', spare]]]
+        return (a, b) if rng.random() < 0.7 else (b, a)
     if r < 0.2:
         a, b = labs(), labs()
         if rng.random() < 0.25:
             b = list(a)
+        elif pk == 'tuple' and rng.random() < 0.5:
+            a, b = near_equal()
         cs = {'op': 'setop', 'kind': rng.choice(['union', 'intersection', 'difference']), 'a': a, 'b': b}
         return cs, {'a': a, 'b': b}, (None, None)
     fnname = rng.choice(['add', 'sub', 'mul', 'eq', 'ne', 'lt', 'le', 'gt', 'and', 'or'])
     kind = 'b' if fnname in ('and', 'or') else rng.choice('iif')
     if r < 0.45:
         la, lb = labs(), labs()
-        if rng.random() < 0.3:
+        if pk == 'tuple' and rng.random() < 0.4:
+            la, lb = near_equal()
+        elif rng.random() < 0.3:
             lb = list(la)
         elif rng.random() < 0.3:
             lb = list(la)
